@@ -92,7 +92,7 @@ def shard(binpath, seed, sh, n):
         if i % 3 == 0:
             # text-level variants around the document: each is judged on its own (one outcome over all channels)
             base = texts["plain"]
-            k = rng.randrange(19)
+            k = rng.randrange(21)
             tx, how = {
                 0: (base + "]", "trailing_bracket"), 1: (base + " x", "trailing_garbage"), 2: (base + base, "two_documents"),
                 3: (base + " \n\t\r\n", "trailing_whitespace"), 4: (base + ",", "trailing_comma"), 5: (base + "\x00", "trailing_nul"),
@@ -100,6 +100,7 @@ def shard(binpath, seed, sh, n):
                 9: (base + "}", "trailing_brace"), 10: (base + " null", "trailing_value"), 11: (base + "//c", "trailing_comment"),
                 12: dup_member(base, d, False), 13: dup_member(base, d, True),
                 17: non_ascii_id(base, rng, 63), 18: non_ascii_id(base, rng, 62),
+                19: two_spellings_of_a_member(base, rng), 20: two_spellings_of_a_member(base, rng),
                 14: extra_number_member(base, d, rng, False), 15: extra_number_member(base, d, rng, True), 16: extra_number_member(base, d, rng, False),
             }[k]
             groups.append([len(cases)])
@@ -150,6 +151,21 @@ def dup_member(base, d, escaped):
         if ord(k[0]) > 0xFFFF:
             name = json.dumps(k)
     return (base[:-1] + "," + name + ":" + json.dumps(d[k], ensure_ascii=False) + "}", "duplicate_member" + ("_escaped" if escaped else ""))
+
+
+def two_spellings_of_a_member(base, rng):
+    """one digest object gets a second member whose name is the first one's in another letter case, with another value,
+    after or before it: `{"sha256": A, "SHA256": B}` (text routes see members in document order, a tree in sorted order)"""
+    import re
+    m = re.search(r'\{"(sha256|sha512)": "([0-9a-f]+)"\}', base)
+    if not m:
+        return (base + " \n", "trailing_whitespace")
+    alg, val = m.group(1), m.group(2)
+    other = ("0" if val[0] != "0" else "1") + val[1:]
+    alt = rng.choice([alg.upper(), alg.capitalize()])
+    a, b = f'"{alg}": "{val}"', f'"{alt}": "{other}"'
+    obj = "{" + (a + ", " + b if rng.random() < 0.6 else b + ", " + a) + "}"
+    return (base[:m.start()] + obj + base[m.end():], "algorithm_name_in_two_letter_cases")
 
 
 def non_ascii_id(base, rng, nhex):
